@@ -117,6 +117,7 @@ Proof.
     assert (E2 : flat_map (fun m => pent_ids (pm_ent m)) (pnet_msgs p) = map (fun m => e_id (m_ent m)) (flat_map if_msgs (flat_map b_ifaces bs))).
     { apply flat_map_singleton_Forall2. eapply Forall2_impl; [|exact Hmsgs]. intros pm m _ _ [sender Hm].
       unfold load_msg in Hm. apply bind_ok in Hm. destruct Hm as (me & Hme & Hm).
+      destruct (pm_size pm >? 8); [discriminate|].
       apply bind_ok in Hm. destruct Hm as (? & _ & Hm). apply bind_ok in Hm. destruct Hm as (? & _ & Hm).
       apply bind_ok in Hm. destruct Hm as (? & _ & Hm). inversion Hm; subst; cbn. eapply load_entity_id; eauto. }
     assert (E4 : flat_map (fun b => pent_ids (pcb_ent b)) (pn_builders p) = map builder_key builders).
@@ -157,6 +158,7 @@ Proof.
       - unfold msg_sigs. apply dedup_key_NoDup.
       - destruct (Hpm pm Hin) as [P1 P2].
         unfold load_msg in Hm. apply bind_ok in Hm. destruct Hm as (me & Hme & Hm).
+        destruct (pm_size pm >? 8); [discriminate|].
         apply bind_ok in Hm. destruct Hm as (sigs & Hsigs & Hm). apply bind_ok in Hm. destruct Hm as (? & _ & Hm).
         apply bind_ok in Hm. destruct Hm as (? & _ & Hm). inversion Hm; subst m; clear Hm.
         assert (Hb : 0 <= pm_size pm * 8) by lia.
